@@ -41,7 +41,8 @@ D = 10
 
 
 def BOUNDS(tier):
-    return ["generated genes GA (+/- strands), GB (-/+), GC (+/+ with alignment gaps), toy "
+    return ["generated genes GA (+/- strands), GB (-/+), GC (+/+ with alignment gaps), GD "
+            "(+/-, variants on region boundaries with structures breaking there), toy "
             "(+/-); shipped: cyp2c19, cyp2d6 (restricted support) in thorough",
             "major: structures of 2-3 copies; minor: major solutions of 2 copies; cn: "
             "max_cn 3-4; all support patterns"]
@@ -50,17 +51,19 @@ def BOUNDS(tier):
 def configs(tier):
     c = []
     maj = {"toy": [["1", "1"], ["1", "4"], ["1", "5"]], "GA": [["1", "1"], ["1", "5"], ["1", "6"]],
-           "GB": [["1", "1"]], "GC": [["1", "1"], ["1", "4"]]}
+           "GB": [["1", "1"]], "GC": [["1", "1"], ["1", "4"]],
+           "GD": [["1", "5"], ["1", "6"], ["1", "7"]]}
     for g, sts in maj.items():
-        for st in (sts if tier == "thorough" else sts[:2]):
+        for st in (sts if tier == "thorough" or g == "GD" else sts[:2]):
             c.append({"kind": "major", "gene": g, "cn": st})
     mins = [("toy", ["1", "1"], {"1": 1, "3": 1}), ("toy", ["1", "1"], {"2": 1, "3": 1}),
             ("GA", ["1", "1"], {"3": 1, "4": 1}), ("GA", ["1", "5"], {"1": 1, "5#1": 1}),
             ("GB", ["1", "1"], {"4": 1, "5": 1}), ("GB", ["1", "1"], {"5": 2}),
-            ("GB", ["1", "1"], {"2": 1, "3": 1}), ("GC", ["1", "1"], {"2": 1, "3": 1})]
+            ("GB", ["1", "1"], {"2": 1, "3": 1}), ("GC", ["1", "1"], {"2": 1, "3": 1}),
+            ("GD", ["1", "1"], {"2": 1, "4": 1})]
     for g, cn, mj in mins:
         c.append({"kind": "minor", "gene": g, "cn": cn, "major": mj})
-    for g in ("toy", "GA", "GC"):
+    for g in ("toy", "GA", "GC", "GD"):
         for mc in ((3, 4) if tier == "thorough" else (3,)):
             c.append({"kind": "cn", "gene": g, "max_cn": mc})
     if tier == "thorough":
